@@ -27,6 +27,32 @@ type wxRec struct {
 	ID                                      int // 1-based line number (multi-year file: in the file; year files: over all files in year order)
 	Tmin, Tavg, Tmax, Precip, Rad, Wind, RH float64
 	Sun, Verd                               float64 // wxNone = sentinel
+	BadDate                                 bool    // the date token of the line is not a date (layouts 1, 2)
+	Extra                                   bool    // layout 0: a line numbered ExtraDoy appended to the file of ExtraYear (a day that does not exist)
+	ExtraYear, ExtraDoy                     int
+}
+
+// fileYear / fileDoy: the year file the line is written to and its jday column (layout 0)
+func (d *wxRec) fileYear() int {
+	if d.Extra {
+		return d.ExtraYear
+	}
+	return d.Date.Y
+}
+func (d *wxRec) fileDoy() int {
+	if d.Extra {
+		return d.ExtraDoy
+	}
+	return d.Date.DOY()
+}
+
+// modelYD: (year, day of year) of the line as the readers see it; an unparsable date is the zero
+// time (year 1, day 1)
+func (d *wxRec) modelYD() (int, int) {
+	if d.BadDate {
+		return 1, 1
+	}
+	return d.Date.Y, d.Date.DOY()
 }
 
 type wxSeries struct {
@@ -92,7 +118,11 @@ func (s *wxSeries) write(dir, fcode string) error {
 			b.WriteString(strings.Repeat("[x]"+sep, len(cols)-1) + "[x]\n")
 		}
 		for _, d := range s.Recs {
-			f := []string{d.Date.String(), ff(d.Tmin), ff(d.Tavg), ff(d.Tmax), ff(d.Precip), ff(d.Rad), ff(d.Wind), ff(d.RH)}
+			dt := d.Date.String()
+			if d.BadDate {
+				dt = fmt.Sprintf("%04d-13-%02d", d.Date.Y, d.Date.D)
+			}
+			f := []string{dt, ff(d.Tmin), ff(d.Tavg), ff(d.Tmax), ff(d.Precip), ff(d.Rad), ff(d.Wind), ff(d.RH)}
 			if s.SunCol {
 				f = append(f, ff(d.Sun))
 			}
@@ -116,7 +146,11 @@ func (s *wxSeries) write(dir, fcode string) error {
 			b.WriteString("units\n")
 		}
 		for _, d := range s.Recs {
-			f := []string{fmt.Sprintf("%04d%03d", d.Date.Y, d.Date.DOY()), ff(d.Rad), ff(d.Tmax), ff(d.Tmin), ff(d.RH), ff(d.Wind), ff(d.Precip)}
+			dt := fmt.Sprintf("%04d%03d", d.Date.Y, d.Date.DOY())
+			if d.BadDate {
+				dt = fmt.Sprintf("%04d%03d", d.Date.Y, d.Date.DOY()+400)
+			}
+			f := []string{dt, ff(d.Rad), ff(d.Tmax), ff(d.Tmin), ff(d.RH), ff(d.Wind), ff(d.Precip)}
 			if s.SunCol {
 				f = append(f, ff(d.Sun))
 			}
@@ -130,10 +164,10 @@ func (s *wxSeries) write(dir, fcode string) error {
 		byYear := map[int][]wxRec{}
 		years := []int{}
 		for _, d := range s.Recs {
-			if _, ok := byYear[d.Date.Y]; !ok {
-				years = append(years, d.Date.Y)
+			if _, ok := byYear[d.fileYear()]; !ok {
+				years = append(years, d.fileYear())
 			}
-			byYear[d.Date.Y] = append(byYear[d.Date.Y], d)
+			byYear[d.fileYear()] = append(byYear[d.fileYear()], d)
 		}
 		for y := range s.EmptyYears {
 			if _, ok := byYear[y]; !ok {
@@ -154,7 +188,7 @@ func (s *wxSeries) write(dir, fcode string) error {
 			}
 			if !s.EmptyYears[y] {
 				for _, d := range byYear[y] {
-					f := []string{ff(d.Tavg), ff(d.Tmin), ff(d.Tmax), ff(wxNone), ff(d.RH), ff(d.Verd), ff(d.Wind), ff(d.Sun), ff(d.Rad), ff(d.Precip), strconv.Itoa(d.Date.DOY())}
+					f := []string{ff(d.Tavg), ff(d.Tmin), ff(d.Tmax), ff(wxNone), ff(d.RH), ff(d.Verd), ff(d.Wind), ff(d.Sun), ff(d.Rad), ff(d.Precip), strconv.Itoa(d.fileDoy())}
 					b.WriteString(strings.Join(f, sep) + "\n")
 				}
 			}
@@ -217,7 +251,7 @@ type seqCase struct {
 }
 
 func genSeq(r *vh.Rng, layout int) *seqCase {
-	classes := []string{"valid", "valid", "valid-early-start", "valid-midyear-start", "over-capacity", "gap", "gap-1day", "gap-year-end", "short-last", "year-jump", "starts-late", "dup"}
+	classes := []string{"valid", "valid", "valid-early-start", "valid-midyear-start", "over-capacity", "gap", "gap-1day", "gap-year-end", "short-last", "year-jump", "starts-late", "dup", "bad-date"}
 	sc := &seqCase{Layout: layout, Class: classes[r.Intn(len(classes))]}
 	y0 := r.Range(1950, 2090)
 	if r.Chance(0.3) {
@@ -374,6 +408,18 @@ func readerKernelStage(c *vh.Ctx, n int) {
 		layout := 1 + c.Rng.Intn(2)
 		sc := genSeq(c.Rng, layout)
 		ser := seriesOfDates(c.Rng, layout, sc.Dates)
+		if sc.Class == "bad-date" && len(ser.Recs) > 4 {
+			// one line in the middle (a day from the start year on, not the first kept, not a 1 January) has an unparsable date
+			for tries := 0; tries < 50; tries++ {
+				i := c.Rng.Range(2, len(ser.Recs)-2)
+				d := ser.Recs[i].Date
+				if d.Y >= sc.StartYear && ser.Recs[i-1].Date.Y >= sc.StartYear && d.DOY() > 1 {
+					ser.Recs[i].BadDate = true
+					sc.Dropped = "unparsable date token in the line of " + d.String()
+					break
+				}
+			}
+		}
 		fcode := fmt.Sprintf("k%d", k)
 		if err := ser.write(dir, fcode); err != nil {
 			panic(err)
@@ -394,8 +440,9 @@ func readerKernelStage(c *vh.Ctx, n int) {
 		c.Nontrivial(fmt.Sprintf("rd%d", k))
 		var b strings.Builder
 		fmt.Fprintf(&b, "weather.multi %d %d %d", sc.StartYear, sc.Cap, len(ser.Recs))
-		for _, d := range ser.Recs {
-			fmt.Fprintf(&b, " %d %d", d.Date.Y, d.Date.DOY())
+		for i := range ser.Recs {
+			y, t := ser.Recs[i].modelYD()
+			fmt.Fprintf(&b, " %d %d", y, t)
 		}
 		cases = append(cases, b.String())
 		kept = append(kept, sc)
@@ -432,6 +479,11 @@ func readerKernelStage(c *vh.Ctx, n int) {
 			if bad != "" {
 				violate04(c, "search", fmt.Sprintf("reader:misaligned:fmt%d:%s", layout, sc.Class), bad, sc)
 			}
+		case "bad-date":
+			// the record of that day is unusable: the day is not covered, the reader must say so
+			if err == nil && sc.Dropped != "" {
+				violate04(c, "search", fmt.Sprintf("reader:accepts:bad-date-line:fmt%d", layout), "reader returns no error for a file with an "+sc.Dropped+" (the line is skipped as 'before the start year', its slot stays zero)", sc)
+			}
 		case "gap", "gap-1day", "gap-year-end", "year-jump":
 			// a series with missing days must be rejected (a duplicated line is not a gap: not judged)
 			if err == nil {
@@ -466,7 +518,10 @@ func yearFileKernelStage(c *vh.Ctx, n int) {
 		base := 0
 		numHeader := c.Rng.Range(2, 3)
 		for f := 0; f < nf; f++ {
-			class := []string{"full", "full", "short", "gap", "missing", "empty", "late-start"}[c.Rng.Intn(7)]
+			class := []string{"full", "full", "short", "gap", "missing", "empty", "late-start", "extra-day"}[c.Rng.Intn(8)]
+			if class == "extra-day" && isLeap(y) {
+				class = "full" // a line 367 runs off the [366] arrays (panic), not judged here
+			}
 			nd := daysIn(y)
 			from := 1
 			switch class {
@@ -486,6 +541,11 @@ func yearFileKernelStage(c *vh.Ctx, n int) {
 			}
 			ser := seriesOfDates(c.Rng, 0, dates)
 			ser.NumHeader = numHeader
+			if class == "extra-day" { // the 365 days of the year and a line numbered 366
+				x := ser.Recs[len(ser.Recs)-1]
+				x.Extra, x.ExtraYear, x.ExtraDoy = true, y, nd+1
+				ser.Recs = append(ser.Recs, x)
+			}
 			for i := range ser.Recs {
 				ser.Recs[i].ID = base + i + 1
 				ser.Recs[i].RH = idRH(base + i + 1)
@@ -524,14 +584,17 @@ func yearFileKernelStage(c *vh.Ctx, n int) {
 			if class == "missing" {
 				has = 0
 			}
-			fmt.Fprintf(&line, " %d %d %d", y, has, len(dates))
-			for _, d := range dates {
-				fmt.Fprintf(&line, " %d", d.DOY())
+			fmt.Fprintf(&line, " %d %d %d", y, has, len(ser.Recs))
+			for i := range ser.Recs {
+				fmt.Fprintf(&line, " %d", ser.Recs[i].fileDoy())
 			}
-			base += len(dates)
+			base += len(ser.Recs)
 			desc = append(desc, fmt.Sprintf("%d:%s", y, class))
 			c.Count("yearfile:" + class)
 			// ---- search: a missing or defective year file must not be reported as loaded
+			if class == "extra-day" && err == nil {
+				violate04(c, "search", "yearfile:accepts:extra-day", fmt.Sprintf("WetterK returns no error for the file of %d with a line numbered %d (JTAG %d)", y, nd+1, env.g.JTAG), desc)
+			}
 			if (class == "missing" || class == "gap" || class == "empty" || class == "late-start") && err == nil {
 				violate04(c, "search", "yearfile:accepts:"+class, fmt.Sprintf("WetterK returns no error for a %s year file", class), desc)
 			}
